@@ -59,6 +59,9 @@ def run(ctx):
     from .. import intwidth
 
     intwidth.int_narrowing(ctx)  # index / offset arrays must not wrap
+    from . import c10
+
+    c10.local_numbering_tables(ctx)  # dual / barycentric spaces: tables keyed by local vertex and edge numbers
 
 
 def geometry(ctx):
